@@ -343,6 +343,11 @@ func (c01) Exec(c *core.Case) (out *core.Outcome) {
 	}
 	defer e.Close()
 	defer func() { core.Finish(o, e.S, e.Requests) }()
+	defer func() {
+		for _, pn := range e.Panics {
+			o.GatewayPanics = append(o.GatewayPanics, panicSite(pn.Stack)+"|"+pn.Value+"|"+pn.Method+" "+pn.Target)
+		}
+	}()
 	r := sim.Rng(c.Seed, "exec")
 	root := e.Root()
 	const bkt = "bkt01"
